@@ -730,7 +730,7 @@ pub fn run(ctx: Ctx) -> ! {
     cov.insert("configurations".into(), json!(["babylon", "cuttlefish (= latest)", "small (cuttlefish with small limits)", "cuttlefish with v2_transactions_allowed=false (base specs only)"]));
     ctx.finish(
         Level::Exploration,
-        "a case is one (configuration, required network, transaction spec) where the spec is the base transaction with 0, 1 or 2 (thorough/small: 3) dimension values applied, or one tuple of per-intent epoch/timestamp windows; every case is a correctly signed real transaction validated from raw bytes; non-trivial = cases that got past preparation (first rejection stage)",
+        "a case is one (configuration, required network, transaction spec) where the spec is the base transaction with 0, 1 or 2 (thorough, cuttlefish and small: 3) dimension values applied, or one tuple of per-intent epoch/timestamp windows; every case is a correctly signed real transaction validated from raw bytes; non-trivial = cases that got past preparation (first rejection stage)",
         counters.past_prepare.load(Ordering::Relaxed),
         true,
         cov,
